@@ -54,12 +54,29 @@ _mutable_spec: tuple[tuple[type[t.Any], frozenset[str]], ...] = (
                 "remove",
                 "symmetric_difference_update",
                 "update",
+                "__iand__",
+                "__init__",
+                "__ior__",
+                "__isub__",
+                "__ixor__",
             ]
         ),
     ),
     (
         abc.MutableMapping,
-        frozenset(["clear", "pop", "popitem", "setdefault", "update"]),
+        frozenset(
+            [
+                "clear",
+                "pop",
+                "popitem",
+                "setdefault",
+                "update",
+                "__delitem__",
+                "__init__",
+                "__ior__",
+                "__setitem__",
+            ]
+        ),
     ),
     # deque is registered as a MutableSequence, and the first matching row
     # decides, so its row has to come before the MutableSequence row.
@@ -78,13 +95,32 @@ _mutable_spec: tuple[tuple[type[t.Any], frozenset[str]], ...] = (
                 "remove",
                 "reverse",
                 "rotate",
+                "__delitem__",
+                "__iadd__",
+                "__imul__",
+                "__init__",
+                "__setitem__",
             ]
         ),
     ),
     (
         abc.MutableSequence,
         frozenset(
-            ["append", "clear", "pop", "reverse", "insert", "sort", "extend", "remove"]
+            [
+                "append",
+                "clear",
+                "pop",
+                "reverse",
+                "insert",
+                "sort",
+                "extend",
+                "remove",
+                "__delitem__",
+                "__iadd__",
+                "__imul__",
+                "__init__",
+                "__setitem__",
+            ]
         ),
     ),
 )
@@ -512,11 +548,15 @@ class ImmutableSandboxedEnvironment(SandboxedEnvironment):
         if isinstance(obj, partial):
             return self.is_safe_callable(obj.func)
 
-        if isinstance(obj, (types.MethodType, types.BuiltinMethodType)):
+        # The operators are methods as well: ``lst.__setitem__`` is a
+        # method-wrapper object.
+        if isinstance(
+            obj, (types.MethodType, types.BuiltinMethodType, types.MethodWrapperType)
+        ):
             return not modifies_known_mutable(obj.__self__, obj.__name__)
 
         # The unbound method, ``list.append``, takes the object as argument.
-        if isinstance(obj, types.MethodDescriptorType):
+        if isinstance(obj, (types.MethodDescriptorType, types.WrapperDescriptorType)):
             return not modifies_known_mutable(obj.__objclass__, obj.__name__)
 
         return True
